@@ -7,7 +7,7 @@ Mirrors, at the granularity "one outermost backend command plus the task-local c
 * cashews/wrapper/transaction.py   `_transaction : ContextVar`, `TransactionContextDecorator.__aenter__/
   __aexit__` (a nested block joins the outer transaction; the decorator form opens a fresh context object
   per call — repaired D12 — so the *form* of a block has no effect on what it does), `Transaction.commit/rollback`;
-* cashews/backends/transaction.py  `TransactionBackend.set/incr/get/delete/expire/commit/rollback`,
+* cashews/backends/transaction.py  `TransactionBackend.set (also with exist=)/exists/incr/get/delete/expire/commit/rollback`,
   `LockTransactionBackend._lock_updates/_unlock_updates` (and its `set/incr/delete/expire`: lock first).
 
 Time is `Nat` in units u = 1/40 s: one harness tick (1/8 s) = 5u, the lock retry step (0.1 s) = 4u.
@@ -36,6 +36,7 @@ inductive Cmd where
   | get (k : Nat)
   | delete (k : Nat)
   | expire (k : Nat)           -- `cache.expire(k, ttl)`: re-time the key (the TTL itself is not modelled)
+  | setx (k : Nat) (v : Int) (e : Bool)   -- `cache.set(k, v, exist=e)`: only if present (`e`) / only if absent; result 1 / 0
   | sleep (d : Nat)            -- `await asyncio.sleep(d/8)`: a suspension that is not a backend command
   | raise
   | nestIn (f : Form)
@@ -94,6 +95,7 @@ inductive PC where
   | seedGet (k : Nat) (n : Int)                   -- parked before `backend.get(k, 0)` of `incr k n`
   | readGet (k : Nat)                             -- parked before `backend.get(k)` of `get k`
   | expGet (k : Nat)                              -- parked before `backend.get(k, _empty)` of `expire k`
+  | existsGet (k : Nat) (v : Int) (e : Bool)      -- parked before `backend.exists(k)` of `set(k, v, exist=e)`
   | direct (c : Cmd)                              -- a task outside a transaction parked before the command itself
   | bodySleep (wake : Nat)
   | commitDel                                     -- parked before `delete_many`
@@ -154,6 +156,13 @@ def endOfProg (t : Task) : Task :=
     else afterCommit { t with prog := [] }
   else { t with prog := [], pc := .finished (.returned t.results) }
 
+/-- `TransactionBackend.set(key, value, exist=e)` once `self.exists(key)` is known to be `p`:
+`if exist is not None and await self.exists(key) is not exist: return False` /
+`_to_delete.discard(key); return await _local_cache.set(key, value)` (→ True) -/
+def setxApply (t : Task) (k : Nat) (v : Int) (e p : Bool) : Task :=
+  if p = e then { t with ov := t.ov.put k v, del := t.del.filter (· ≠ k), results := t.results ++ [some 1] }
+  else { t with results := t.results ++ [some 0] }
+
 /-- a command that needs no backend command (given the task's local state): `some` new local state.
 `none`: the task must park (lock needed, backend read needed, direct command, sleep) or raises. -/
 def localCmd (t : Task) : Cmd → Option Task
@@ -194,6 +203,14 @@ def localCmd (t : Task) : Cmd → Option Task
         | some _ => some t
         | none => none
     else none
+  | .setx k v e =>
+    -- LockTransactionBackend.set: `_lock_updates(key)`; TransactionBackend.exists:
+    -- `if local.exists(key): return True; if key in _to_delete: return False; return backend.exists(key)`
+    if t.ctx && holds t k then
+      match t.ov.get k with
+      | some _ => some (setxApply t k v e true)
+      | none => if k ∈ t.del then some (setxApply t k v e false) else none
+    else none
   | .sleep _ => none
   | .raise => none
   | .nestIn _ => some { t with depth := t.depth + 1 }   -- `__aenter__` with a current transaction: `_inner = True`
@@ -227,6 +244,10 @@ def park (now : Nat) (t : Task) (c : Cmd) (rest : List Cmd) : Task :=
   | .expire k =>
     if t.ctx then
       if holds t k then { t with prog := rest, pc := .expGet k } else lockOrFail t k (c :: rest)
+    else { t with prog := rest, pc := .direct c }
+  | .setx k v e =>
+    if t.ctx then
+      if holds t k then { t with prog := rest, pc := .existsGet k v e } else lockOrFail t k (c :: rest)
     else { t with prog := rest, pc := .direct c }
   | .nestIn _ => t
   | .nestOut => t
@@ -288,6 +309,11 @@ def directStep (now : Nat) (store : Store) (lock : Locks) (t : Task) : Cmd → E
     { store := store, lock := lock, task := settle now t1.prog t1 }
   | .delete k =>
     { store := (Mut.directDel k).apply store, lock := lock, task := settle now t.prog t, muts := [.directDel k] }
+  | .setx k v e =>
+    -- Memory.set(exist=e): `if exist is not None and (await self._key_exist(key)) is not exist: return False`
+    let t1 := { t with results := t.results ++ [some (if (store k).isSome = e then 1 else 0)] }
+    { store := if (store k).isSome = e then (Mut.directSet k v).apply store else store, lock := lock,
+      task := settle now t1.prog t1, muts := if (store k).isSome = e then [.directSet k v] else [] }
   | .expire _ =>
     -- Memory.expire: `_set(key, value, timeout)` with the value it holds: no value changes
     { store := store, lock := lock, task := settle now t.prog t }
@@ -326,6 +352,10 @@ def taskStep (tid now : Nat) (store : Store) (lock : Locks) (t : Task) : Eff :=
     -- `value = await self._backend.get(key, default=_empty); if value is _empty: return`
     -- `await self._local_cache.set(key, value, expire=timeout)`: the store's current value is buffered
     let t1 := expBuffer t k (store k)
+    { store := store, lock := lock, task := settle now t1.prog t1 }
+  | .existsGet k v e =>
+    -- `await self._backend.exists(key)`, then the rest of `TransactionBackend.set`
+    let t1 := setxApply { t with reads := t.reads ++ [store k] } k v e (store k).isSome
     { store := store, lock := lock, task := settle now t1.prog t1 }
   | .direct c => directStep now store lock t c
   | .commitDel =>
